@@ -23,11 +23,9 @@ Section C07.
   Qed.
 
   Lemma unc_seg_cfuns : forall (s : shell N) (x : N),
-    shell_cfuns (mkShell (ftype s) (region s) (am s) [x]
-                         (transpose [repeat one_lit (List.length (am s))]))
-    = map (fun l => (l, [(x, one_lit)])) (am s).
+    shell_cfuns (unit_shell one_lit s x) = map (fun l => (l, [(x, one_lit)])) (am s).
   Proof.
-    intros s x. unfold shell_cfuns. cbn [am coefs exps transpose].
+    intros s x. unfold unit_shell, shell_cfuns. cbn [am coefs exps transpose].
     destruct (am s) as [| l [| l2 t]] eqn:E.
     - reflexivity.
     - reflexivity.
@@ -46,32 +44,229 @@ Section C07.
     - intros [s [l [x [Hs [Hl [Hx Hf]]]]]].
       exists (l, [(x, one_lit)]). split; [| exact Hf].
       apply in_flat_map.
-      exists (mkShell (ftype s) (region s) (am s) [x] (transpose [repeat one_lit (List.length (am s))])).
+      exists (unit_shell one_lit s x).
       split.
       + apply in_flat_map. exists s. split; [exact Hs |].
         unfold unc_seg_shell. apply in_map_iff. exists x. auto.
       + rewrite unc_seg_cfuns. apply in_map_iff. exists l. auto.
   Qed.
 
+  (* ----- the seen-set version: a pure de-duplication of the (shell, exponent) items ----- *)
+  Definition item := (shell N * N)%type.
+  Definition ikey (it : item) : prim N := (am (fst it), snd it).
+  Definition iunit (it : item) : shell N := unit_shell one_lit (fst it) (snd it).
+  Definition items (shs : list (shell N)) : list item :=
+    flat_map (fun s => map (pair s) (exps s)) shs.
+
+  Fixpoint dd (l : list item) (seen : list (prim N)) : list item :=
+    match l with
+    | [] => []
+    | it :: t => if prim_seen same (am (fst it)) (snd it) seen then dd t seen
+                 else it :: dd t (seen ++ [ikey it])
+    end.
+
+  Lemma dd_app : forall a b seen,
+    dd (a ++ b) seen = dd a seen ++ dd b (seen ++ map ikey (dd a seen)).
+  Proof.
+    induction a as [| it t IH]; intros b seen; cbn [app dd map].
+    - rewrite app_nil_r. reflexivity.
+    - destruct (prim_seen same (am (fst it)) (snd it) seen).
+      + apply IH.
+      + cbn [app map]. rewrite IH, <- app_assoc. reflexivity.
+  Qed.
+
+  Lemma unc_seg_prims_dd : forall (s : shell N) xs seen,
+    unc_seg_prims same one_lit s xs seen
+    = (map iunit (dd (map (pair s) xs) seen), seen ++ map ikey (dd (map (pair s) xs) seen)).
+  Proof.
+    intros s. induction xs as [| x t IH]; intros seen; cbn [unc_seg_prims map dd fst snd].
+    - rewrite app_nil_r. reflexivity.
+    - destruct (prim_seen same (am s) x seen).
+      + apply IH.
+      + rewrite IH. cbn [map]. rewrite <- app_assoc. reflexivity.
+  Qed.
+
+  Lemma unc_seg_shells_dd : forall shs seen,
+    unc_seg_shells same one_lit shs seen = map iunit (dd (items shs) seen).
+  Proof.
+    induction shs as [| s t IH]; intros seen; cbn [unc_seg_shells items flat_map dd map].
+    - reflexivity.
+    - rewrite unc_seg_prims_dd. fold (items t). rewrite dd_app, map_app, IH. reflexivity.
+  Qed.
+
+  Lemma list_eqb_Z : forall a b : list Z, list_eqb Z.eqb a b = true <-> a = b.
+  Proof.
+    induction a as [| x a IH]; destruct b as [| y b]; cbn [list_eqb]; split; intros H;
+      try reflexivity; try discriminate.
+    - apply andb_true_iff in H. destruct H as [H1 H2]. apply Z.eqb_eq in H1. apply IH in H2. congruence.
+    - injection H as H1 H2. subst. apply andb_true_iff. split; [apply Z.eqb_refl | apply IH; reflexivity].
+  Qed.
+
+  Definition seenP (a : list Z) (x : N) (seen : list (prim N)) : Prop :=
+    exists p, In p seen /\ fst p = a /\ same (snd p) x = true.
+
+  Lemma prim_seen_iff : forall a x seen, prim_seen same a x seen = true <-> seenP a x seen.
+  Proof.
+    intros a x seen. unfold prim_seen, seenP. rewrite existsb_exists. split.
+    - intros [p [Hin Hp]]. apply andb_true_iff in Hp. destruct Hp as [H1 H2].
+      apply list_eqb_Z in H1. exists p. auto.
+    - intros [p [Hin [H1 H2]]]. exists p. split; [exact Hin |].
+      apply andb_true_iff. split; [apply list_eqb_Z; exact H1 | exact H2].
+  Qed.
+
+  Lemma dd_in : forall l seen it, In it (dd l seen) -> In it l.
+  Proof.
+    induction l as [| it0 t IH]; intros seen it H; cbn [dd] in H; [destruct H |].
+    destruct (prim_seen same (am (fst it0)) (snd it0) seen).
+    - right. eapply IH. exact H.
+    - destruct H as [H | H]; [left; exact H | right; eapply IH; exact H].
+  Qed.
+
+  Lemma dd_fresh : forall l seen v, In v (dd l seen) -> ~ seenP (am (fst v)) (snd v) seen.
+  Proof.
+    induction l as [| it0 t IH]; intros seen v H; cbn [dd] in H; [destruct H |].
+    destruct (prim_seen same (am (fst it0)) (snd it0) seen) eqn:E.
+    - apply IH. exact H.
+    - destruct H as [H | H].
+      + subst v. intros Hs. apply prim_seen_iff in Hs. congruence.
+      + intros [p [Hin Hp]]. apply (IH _ _ H). exists p. split; [apply in_or_app; left; exact Hin | exact Hp].
+  Qed.
+
+  Lemma dd_cover : forall l seen it, In it l ->
+    seenP (am (fst it)) (snd it) seen \/
+    exists it', In it' (dd l seen) /\ am (fst it') = am (fst it) /\ same (snd it') (snd it) = true.
+  Proof.
+    induction l as [| it0 t IH]; intros seen it Hin; [destruct Hin |].
+    cbn [dd]. destruct (prim_seen same (am (fst it0)) (snd it0) seen) eqn:E.
+    - destruct Hin as [Hin | Hin].
+      + subst it0. left. apply prim_seen_iff. exact E.
+      + apply IH. exact Hin.
+    - destruct Hin as [Hin | Hin].
+      + subst it0. right. exists it. split; [left; reflexivity |]. split; [reflexivity |].
+        apply (same_refl Hc).
+      + destruct (IH (seen ++ [ikey it0]) it Hin) as [[p [Hp [H1 H2]]] | [it' [H1 H2]]].
+        * apply in_app_or in Hp. destruct Hp as [Hp | [Hp | []]].
+          -- left. exists p. auto.
+          -- subst p. cbn [ikey fst snd] in H1, H2. right. exists it0.
+             split; [left; reflexivity | auto].
+        * right. exists it'. split; [right; exact H1 | exact H2].
+  Qed.
+
+  Lemma dd_nodup : forall l seen i j u v, (i < j)%nat ->
+    nth_error (dd l seen) i = Some u -> nth_error (dd l seen) j = Some v ->
+    am (fst u) = am (fst v) -> same (snd u) (snd v) = true -> False.
+  Proof.
+    induction l as [| it0 t IH]; intros seen i j u v Hij Hi Hj Ham Hs; cbn [dd] in Hi, Hj.
+    - destruct i; discriminate.
+    - destruct (prim_seen same (am (fst it0)) (snd it0) seen).
+      + eapply IH; eauto.
+      + destruct j as [| j]; [lia |]. cbn [nth_error] in Hj.
+        destruct i as [| i]; cbn [nth_error] in Hi.
+        * injection Hi as Hi. subst it0. apply nth_error_In in Hj.
+          apply (dd_fresh _ _ _ Hj). exists (ikey u).
+          split; [apply in_or_app; right; left; reflexivity |]. cbn [ikey fst snd]. auto.
+        * eapply (IH _ i j); eauto. lia.
+  Qed.
+
+  Lemma feq_unit : forall l x x', same x' x = true ->
+    feq is0 same (l, [(x, one_lit)]) (l, [(x', one_lit)]).
+  Proof.
+    intros l x x' Hs. split; [reflexivity |]. intros p _. cbn [snd]. unfold InS. split.
+    - intros [q [[Hq | []] [H1 H2]]]. subst q. cbn [fst snd] in *.
+      exists (x', one_lit). split; [left; reflexivity |]. cbn [fst snd].
+      split; [| exact H2]. eapply (same_trans Hc); [exact H1 |]. apply (same_sym Hc). exact Hs.
+    - intros [q [[Hq | []] [H1 H2]]]. subst q. cbn [fst snd] in *.
+      exists (x, one_lit). split; [left; reflexivity |]. cbn [fst snd].
+      split; [| exact H2]. eapply (same_trans Hc); [exact H1 | exact Hs].
+  Qed.
+
+  Lemma feq_trans' : forall f g h, feq is0 same f g -> feq is0 same g h -> feq is0 same f h.
+  Proof.
+    intros f g h [H1 H2] [H3 H4]. split; [congruence |].
+    intros p Hp. rewrite (H2 p Hp). auto.
+  Qed.
+
+  Lemma items_in : forall shs s x, In (s, x) (items shs) <-> In s shs /\ In x (exps s).
+  Proof.
+    intros shs s x. unfold items. rewrite in_flat_map. split.
+    - intros [s0 [Hs0 Hin]]. apply in_map_iff in Hin. destruct Hin as [x0 [E Hx0]].
+      injection E as E1 E2. subst. auto.
+    - intros [Hs Hx]. exists s. split; [exact Hs |]. apply in_map. exact Hx.
+  Qed.
+
+  Lemma unc_seg_shells_spec : unc_seg_shells_spec_stmt is0 same one_lit.
+  Proof.
+    unfold unc_seg_shells_spec_stmt. intros shs f. rewrite unc_seg_shells_dd.
+    unfold FSin, shells_cfuns. split.
+    - intros [g [Hg Hf]].
+      apply in_flat_map in Hg. destruct Hg as [u [Hu Hg]].
+      apply in_map_iff in Hu. destruct Hu as [[s x] [Eu Hit]]. subst u.
+      apply dd_in in Hit. apply items_in in Hit. destruct Hit as [Hs Hx].
+      unfold iunit in Hg. cbn [fst snd] in Hg. rewrite unc_seg_cfuns in Hg.
+      apply in_map_iff in Hg. destruct Hg as [l [El Hl]]. subst g.
+      exists s, l, x. auto.
+    - intros [s [l [x [Hs [Hl [Hx Hf]]]]]].
+      assert (Hit : In (s, x) (items shs)) by (apply items_in; auto).
+      destruct (dd_cover _ [] _ Hit) as [[p [[] _]] | [[s' x'] [Hin [Ham Hsame]]]].
+      cbn [fst snd] in Ham, Hsame.
+      exists (l, [(x', one_lit)]). split.
+      + apply in_flat_map. exists (iunit (s', x')). split; [apply in_map; exact Hin |].
+        unfold iunit. cbn [fst snd]. rewrite unc_seg_cfuns. apply in_map_iff. exists l.
+        split; [reflexivity |]. rewrite Ham. exact Hl.
+      + eapply feq_trans'; [exact Hf |]. apply feq_unit. exact Hsame.
+  Qed.
+
+  Lemma unc_seg_shells_nodup : unc_seg_shells_nodup_stmt same one_lit.
+  Proof.
+    unfold unc_seg_shells_nodup_stmt. intros shs i j s t x y. rewrite unc_seg_shells_dd.
+    intros Hi Hj Ham Hx Hy Hs.
+    rewrite nth_error_map in Hi, Hj.
+    destruct (nth_error (dd (items shs) []) i) as [u |] eqn:Eu; [| discriminate].
+    destruct (nth_error (dd (items shs) []) j) as [v |] eqn:Ev; [| discriminate].
+    cbn [option_map] in Hi, Hj. injection Hi as Hi. injection Hj as Hj. subst s t.
+    unfold iunit, unit_shell in Ham, Hx, Hy. cbn [am exps] in Ham, Hx, Hy.
+    injection Hx as Hx. injection Hy as Hy. subst x y.
+    destruct (Nat.lt_trichotomy i j) as [Hlt | [Heq | Hgt]]; [exfalso | exact Heq | exfalso].
+    - eapply dd_nodup; [exact Hlt | exact Eu | exact Ev | exact Ham | exact Hs].
+    - eapply dd_nodup; [exact Hgt | exact Ev | exact Eu | symmetry; exact Ham |].
+      apply (same_sym Hc). exact Hs.
+  Qed.
+
+  Lemma unc_seg_shells_shape : unc_seg_shells_shape_stmt same one_lit.
+  Proof.
+    unfold unc_seg_shells_shape_stmt. intros shs u. rewrite unc_seg_shells_dd. intros Hu.
+    apply in_map_iff in Hu. destruct Hu as [[s x] [Eu Hit]]. subst u.
+    apply dd_in in Hit. apply items_in in Hit. destruct Hit as [Hs Hx].
+    exists s, x. auto.
+  Qed.
+
   (* ---------- remove_free_primitives ---------- *)
   Definition keepc (c : list N) : bool := negb (is_single_column is0 c).
+  (* the momenta of the shell that remove_free_primitives keeps *)
+  Definition rm_am (s : shell N) : list Z :=
+    if Nat.ltb 1 (List.length (am s)) then kept_am is0 (am s) (coefs s) else am s.
+  Definition rm_shell (s : shell N) : shell N :=
+    mkShell (ftype s) (region s) (rm_am s) (exps s) (filter keepc (coefs s)).
 
   Lemma rm_free_in : forall (s s' : shell N), In s' (rm_free_shell is0 s) ->
-    s' = mkShell (ftype s) (region s) (am s) (exps s) (filter keepc (coefs s)) /\
-    filter keepc (coefs s) <> [].
+    s' = rm_shell s /\ filter keepc (coefs s) <> [].
   Proof.
-    intros s s' H. unfold rm_free_shell in H. fold keepc in H.
+    intros s s' H. unfold rm_free_shell in H. fold keepc in H. fold (rm_am s) in H.
+    unfold rm_shell.
     destruct (filter keepc (coefs s)) as [| c t] eqn:E.
     - destruct H.
     - destruct H as [H | []]. split; [symmetry; exact H | discriminate].
   Qed.
 
   Lemma rm_free_mk : forall (s : shell N), filter keepc (coefs s) <> [] ->
-    rm_free_shell is0 s = [mkShell (ftype s) (region s) (am s) (exps s) (filter keepc (coefs s))].
+    rm_free_shell is0 s = [rm_shell s].
   Proof.
-    intros s H. unfold rm_free_shell. fold keepc.
+    intros s H. unfold rm_free_shell, rm_shell. fold keepc. fold (rm_am s).
     destruct (filter keepc (coefs s)) as [| c t] eqn:E; [congruence | reflexivity].
   Qed.
+
+  Lemma rm_am_single : forall s : shell N, List.length (am s) = 1 -> rm_am s = am s.
+  Proof. intros s H. unfold rm_am. rewrite H. reflexivity. Qed.
 
   Lemma nz_col_len : forall c : list N, (exists x, In x c /\ is0 x = false) ->
     1 <= List.length (nonzeros is0 c).
@@ -99,7 +294,7 @@ Section C07.
       rewrite Forall_forall in Ham. specialize (Ham s Hs).
       unfold wf_shells in Hwf. rewrite Forall_forall in Hwf. specialize (Hwf s Hs).
       destruct Hwf as [_ [[_ Hnz] _]]. rewrite Forall_forall in Hnz.
-      unfold shell_cfuns in Hg. cbn [am coefs exps] in Hg.
+      unfold shell_cfuns, rm_shell in Hg. cbn [am coefs exps] in Hg. rewrite (rm_am_single s Ham) in Hg.
       destruct (am s) as [| l [| l2 t]] eqn:E; cbn [List.length] in Ham; try lia.
       apply in_map_iff in Hg. destruct Hg as [c [Hc1 Hc2]]. subst g.
       apply filter_In in Hc2. destruct Hc2 as [Hc2 Hk].
@@ -112,11 +307,12 @@ Section C07.
       assert (Hk : In c (filter keepc (coefs s))).
       { apply filter_In. split; [exact Hcin |]. apply keepc_iff; auto. }
       apply in_flat_map.
-      exists (mkShell (ftype s) (region s) (am s) (exps s) (filter keepc (coefs s))). split.
+      exists (rm_shell s). split.
       + apply in_flat_map. exists s. split; [exact Hs |].
         rewrite rm_free_mk; [left; reflexivity |].
         intros E. rewrite E in Hk. destruct Hk.
-      + unfold shell_cfuns. cbn [am coefs exps]. rewrite Hl.
+      + unfold shell_cfuns, rm_shell. cbn [am coefs exps].
+        rewrite rm_am_single by (rewrite Hl; reflexivity). rewrite Hl.
         apply in_map_iff. exists c. auto.
   Qed.
 
@@ -128,32 +324,166 @@ Section C07.
     apply rm_free_in in Hs'. destruct Hs' as [Hs' Hne]. subst s'.
     specialize (Ham s Hs). specialize (Hwf s Hs).
     destruct Hwf as [Hrect [[_ Hnz] _]].
-    unfold wf_shell, rect, nz_cols, am_ok in *. cbn [am coefs exps].
+    unfold wf_shell, rect, nz_cols, am_ok, rm_shell in *. cbn [am coefs exps].
     rewrite Forall_forall in *.
     split; [| split].
     - intros c Hcin. apply filter_In in Hcin. apply Hrect. tauto.
     - split; [exact Hne |]. apply Forall_forall. intros c Hcin. apply filter_In in Hcin. apply Hnz. tauto.
-    - left. exact Ham.
+    - left. rewrite rm_am_single; exact Ham.
   Qed.
 
-  Lemma rm_free_fused_refuted : forall x1 x2 c1 c2 c3 z,
-    rm_free_fused_refuted_stmt is0 x1 x2 c1 c2 c3 z.
+  (* ----- fused shells included ----- *)
+  Lemma shell_cfuns_zip : forall ft rg ka xs (kc : list (list N)), List.length ka = List.length kc ->
+    shell_cfuns (mkShell ft rg ka xs kc) = zip_am ka kc xs.
   Proof.
-    intros x1 x2 c1 c2 c3 z. unfold rm_free_fused_refuted_stmt. intros Hz H1 H2 H3.
-    cbv zeta. split.
-    - unfold wf_shell, rect, nz_cols, am_ok. cbn [am coefs exps List.length].
-      split; [| split].
-      + repeat constructor.
-      + split; [discriminate |]. constructor; [| constructor; [| constructor]].
-        * exists c1. split; [left; reflexivity | exact H1].
-        * exists c2. split; [left; reflexivity | exact H2].
-      + right. lia.
-    - exists (mkShell "gto" "" [0%Z; 1%Z] [x1; x2] [[c2; c3]]).
-      unfold rm_free_shell, is_single_column, nonzeros.
-      cbn [am coefs exps ftype region filter]. rewrite Hz, H1, H2, H3.
-      cbn [negb filter List.length Nat.eqb].
-      split; [reflexivity |]. split; [reflexivity |]. split; [reflexivity |].
-      unfold am_ok. cbn [am coefs List.length]. lia.
+    intros ft rg ka xs kc Hl. unfold shell_cfuns. cbn [am coefs exps].
+    destruct ka as [| l [| l' r]]; try reflexivity.
+    destruct kc as [| c [| c' r]]; cbn [List.length] in Hl; try discriminate. reflexivity.
+  Qed.
+
+  Lemma shell_cfuns_fused : forall s : shell N, 1 < List.length (am s) ->
+    shell_cfuns s = zip_am (am s) (coefs s) (exps s).
+  Proof.
+    intros s Hl. unfold shell_cfuns. destruct (am s) as [| l [| l' r]]; cbn [List.length] in Hl; try lia; reflexivity.
+  Qed.
+
+  Lemma kept_am_len : forall ams (cs : list (list N)), List.length ams = List.length cs ->
+    List.length (kept_am is0 ams cs) = List.length (filter keepc cs).
+  Proof.
+    induction ams as [| l ams IH]; intros cs Hl; destruct cs as [| c cs]; cbn [List.length] in Hl;
+      try discriminate; [reflexivity |].
+    cbn [kept_am filter]. unfold keepc at 1. destruct (is_single_column is0 c); cbn [negb List.length].
+    - apply IH. lia.
+    - f_equal. apply IH. lia.
+  Qed.
+
+  Lemma zip_am_in : forall ams (cs : list (list N)) xs g,
+    In g (zip_am ams cs xs) <-> exists l c, In (l, c) (combine ams cs) /\ g = (l, combine xs c).
+  Proof.
+    induction ams as [| l ams IH]; intros cs xs g; destruct cs as [| c cs]; cbn [zip_am combine In].
+    - split; [intros [] | intros [l [c [[] _]]]].
+    - split; [intros [] | intros [l [c0 [[] _]]]].
+    - split; [intros [] | intros [l0 [c [[] _]]]].
+    - rewrite IH. split.
+      + intros [H | [l0 [c0 [H1 H2]]]].
+        * exists l, c. split; [left; reflexivity | symmetry; exact H].
+        * exists l0, c0. split; [right; exact H1 | exact H2].
+      + intros [l0 [c0 [[H1 | H1] H2]]].
+        * injection H1 as H1 H3. subst. left. reflexivity.
+        * right. exists l0, c0. auto.
+  Qed.
+
+  Lemma zip_am_kept_in : forall ams (cs : list (list N)) xs g,
+    In g (zip_am (kept_am is0 ams cs) (filter keepc cs) xs) <->
+    exists l c, In (l, c) (combine ams cs) /\ keepc c = true /\ g = (l, combine xs c).
+  Proof.
+    induction ams as [| l ams IH]; intros cs xs g; destruct cs as [| c cs]; cbn [kept_am filter combine In zip_am].
+    - split; [intros [] | intros [l [c [[] _]]]].
+    - split; [intros [] | intros [l [c0 [[] _]]]].
+    - split; [intros [] | intros [l0 [c [[] _]]]].
+    - unfold keepc at 1. destruct (is_single_column is0 c) eqn:E; cbn [negb].
+      + rewrite IH. split.
+        * intros [l0 [c0 [H1 H2]]]. exists l0, c0. split; [right; exact H1 | exact H2].
+        * intros [l0 [c0 [[H1 | H1] [H2 H3]]]].
+          -- injection H1 as H1 H4. subst. unfold keepc in H2. rewrite E in H2. discriminate.
+          -- exists l0, c0. auto.
+      + cbn [zip_am In]. rewrite IH. split.
+        * intros [H | [l0 [c0 [H1 H2]]]].
+          -- exists l, c. split; [left; reflexivity |]. split; [unfold keepc; rewrite E; reflexivity | symmetry; exact H].
+          -- exists l0, c0. split; [right; exact H1 | exact H2].
+        * intros [l0 [c0 [[H1 | H1] [H2 H3]]]].
+          -- injection H1 as H1 H4. subst. left. reflexivity.
+          -- right. exists l0, c0. auto.
+  Qed.
+
+  Lemma map_snd_combine : forall (xs c : list N), List.length c = List.length xs ->
+    map snd (combine xs c) = c.
+  Proof.
+    induction xs as [| x xs IH]; intros c Hl; destruct c as [| y c]; cbn [List.length] in Hl;
+      try discriminate; [reflexivity |].
+    cbn [combine map snd]. f_equal. apply IH. lia.
+  Qed.
+
+  (* the contracted functions of the output of rm_free_shell on one well-formed shell *)
+  Lemma rm_free_shell_cfuns : forall (s : shell N) g, wf_shell is0 s ->
+    (In g (shells_cfuns (rm_free_shell is0 s)) <->
+     In g (shell_cfuns s) /\ 2 <= List.length (nonzeros is0 (map snd (snd g)))).
+  Proof.
+    intros s g [Hrect [[Hne Hnz] Ham]]. unfold rect in Hrect. rewrite Forall_forall in Hrect, Hnz.
+    assert (Hstep : In g (shells_cfuns (rm_free_shell is0 s)) <-> In g (shell_cfuns (rm_shell s))).
+    { destruct (filter keepc (coefs s)) as [| c0 t0] eqn:E.
+      - unfold rm_free_shell. fold keepc. rewrite E. unfold rm_shell, shell_cfuns. rewrite E.
+        cbn [am coefs exps shells_cfuns flat_map].
+        destruct (rm_am s) as [| l [| l' r]]; cbn [map zip_am]; tauto.
+      - rewrite rm_free_mk by (rewrite E; discriminate).
+        unfold shells_cfuns. cbn [flat_map]. rewrite app_nil_r. tauto. }
+    rewrite Hstep. clear Hstep.
+    assert (Hkeep : forall c, In c (coefs s) ->
+              (keepc c = true <-> 2 <= List.length (nonzeros is0 (map snd (combine (exps s) c))))).
+    { intros c Hin. rewrite map_snd_combine by (apply Hrect; exact Hin). apply keepc_iff. apply Hnz. exact Hin. }
+    destruct Ham as [Ham | [Ham Hlen]].
+    - unfold rm_shell, shell_cfuns. cbn [am coefs exps]. rewrite (rm_am_single s Ham).
+      destruct (am s) as [| l [| l2 t]] eqn:E; cbn [List.length] in Ham; try lia.
+      rewrite !in_map_iff. split.
+      + intros [c [Hg Hin]]. apply filter_In in Hin. destruct Hin as [Hin Hk]. subst g. split.
+        * exists c. auto.
+        * cbn [snd]. apply Hkeep; assumption.
+      + intros [[c [Hg Hin]] H2]. subst g. cbn [snd] in H2. exists c. split; [reflexivity |].
+        apply filter_In. split; [exact Hin |]. apply Hkeep; assumption.
+    - unfold rm_shell. rewrite shell_cfuns_zip.
+      2:{ unfold rm_am. apply Nat.ltb_lt in Ham. rewrite Ham. apply kept_am_len. symmetry. exact Hlen. }
+      rewrite (shell_cfuns_fused s Ham). unfold rm_am. pose proof Ham as Hlt. apply Nat.ltb_lt in Hlt. rewrite Hlt.
+      rewrite zip_am_kept_in, zip_am_in. split.
+      + intros [l [c [Hin [Hk Hg]]]]. subst g. split; [exists l, c; auto |].
+        cbn [snd]. apply Hkeep; [| exact Hk]. apply in_combine_r in Hin. exact Hin.
+      + intros [[l [c [Hin Hg]]] H2]. subst g. cbn [snd] in H2. exists l, c.
+        split; [exact Hin |]. split; [| reflexivity]. apply Hkeep; [| exact H2].
+        apply in_combine_r in Hin. exact Hin.
+  Qed.
+
+  Lemma shells_cfuns_flat_in : forall (F : shell N -> list (shell N)) shs g,
+    In g (shells_cfuns (flat_map F shs)) <-> exists s, In s shs /\ In g (shells_cfuns (F s)).
+  Proof.
+    intros F shs g. unfold shells_cfuns. rewrite in_flat_map. split.
+    - intros [u [Hu Hg]]. apply in_flat_map in Hu. destruct Hu as [s [Hs Hu]].
+      exists s. split; [exact Hs |]. apply in_flat_map. exists u. auto.
+    - intros [s [Hs Hg]]. apply in_flat_map in Hg. destruct Hg as [u [Hu Hg]].
+      exists u. split; [| exact Hg]. apply in_flat_map. exists s. auto.
+  Qed.
+
+  Lemma rm_free_spec_all : rm_free_spec_all_stmt is0 same.
+  Proof.
+    unfold rm_free_spec_all_stmt. intros shs f Hwf. unfold wf_shells in Hwf. rewrite Forall_forall in Hwf.
+    unfold FSin. split.
+    - intros [g [Hg Hf]]. apply shells_cfuns_flat_in in Hg. destruct Hg as [s [Hs Hg]].
+      apply (rm_free_shell_cfuns s g (Hwf s Hs)) in Hg. destruct Hg as [Hg H2].
+      exists g. split; [| split; [exact H2 | exact Hf]].
+      unfold shells_cfuns. apply in_flat_map. exists s. auto.
+    - intros [g [Hg [H2 Hf]]]. unfold shells_cfuns in Hg. apply in_flat_map in Hg.
+      destruct Hg as [s [Hs Hg]]. exists g. split; [| exact Hf].
+      apply shells_cfuns_flat_in. exists s. split; [exact Hs |].
+      apply (rm_free_shell_cfuns s g (Hwf s Hs)). auto.
+  Qed.
+
+  Lemma rm_free_wf_all : rm_free_wf_all_stmt is0.
+  Proof.
+    unfold rm_free_wf_all_stmt, wf_shells. intros shs Hwf.
+    rewrite Forall_forall in *. intros s' Hs'.
+    apply in_flat_map in Hs'. destruct Hs' as [s [Hs Hs']].
+    apply rm_free_in in Hs'. destruct Hs' as [Hs' Hne]. subst s'.
+    specialize (Hwf s Hs).
+    destruct Hwf as [Hrect [[_ Hnz] Ham]].
+    unfold wf_shell, rect, nz_cols, am_ok, rm_shell in *. cbn [am coefs exps].
+    rewrite Forall_forall in *.
+    split; [| split].
+    - intros c Hcin. apply filter_In in Hcin. apply Hrect. tauto.
+    - split; [exact Hne |]. apply Forall_forall. intros c Hcin. apply filter_In in Hcin. apply Hnz. tauto.
+    - destruct Ham as [Ham | [Ham Hlen]].
+      + left. rewrite rm_am_single; exact Ham.
+      + assert (Hk : List.length (rm_am s) = List.length (filter keepc (coefs s))).
+        { unfold rm_am. apply Nat.ltb_lt in Ham. rewrite Ham. apply kept_am_len. symmetry. exact Hlen. }
+        destruct (filter keepc (coefs s)) as [| c0 [| c1 t]] eqn:E; [congruence | left | right];
+          cbn [List.length] in *; lia.
   Qed.
 End C07.
 
@@ -874,6 +1204,10 @@ Qed.
 Print Assumptions unc_seg_spec.
 Print Assumptions rm_free_spec.
 Print Assumptions rm_free_wf.
-Print Assumptions rm_free_fused_refuted.
+Print Assumptions rm_free_spec_all.
+Print Assumptions rm_free_wf_all.
+Print Assumptions unc_seg_shells_spec.
+Print Assumptions unc_seg_shells_nodup.
+Print Assumptions unc_seg_shells_shape.
 Print Assumptions opt_shell_natural.
 Print Assumptions opt_shell_span.
